@@ -15,6 +15,8 @@ import (
 	"encoding/json"
 	"fmt"
 	"os"
+	"reflect"
+	"runtime"
 	"sync"
 	"testing"
 
@@ -24,11 +26,40 @@ import (
 	xsha3 "golang.org/x/crypto/sha3"
 )
 
-// internal/sha3 has no build-tag (purego) or CPU-feature dependent code: the sponge units are
-// run under the default configuration only.
+// internal/sha3 has two sponge back-ends chosen at build time: xor_unaligned.go (amd64, 386,
+// ppc64le) and the portable xor_generic.go (every other GOARCH, or -tags appengine). Nothing in
+// the package depends on purego or on CPU features, so the sponge units run under the
+// configurations `default` and `appengine` only.
 func c15SkipNonDefault(t *testing.T) {
-	if c := os.Getenv("VERIF_CONFIG"); c != "" && c != "default" {
-		t.Skip("internal/sha3 is configuration independent; checked under the default configuration only")
+	if c := os.Getenv("VERIF_CONFIG"); c != "" && c != "default" && c != "appengine" {
+		t.Skip("internal/sha3 depends only on the xor back-end; checked under the default and appengine configurations")
+	}
+}
+
+// c15XorBackend reads out which back-end was compiled: storageBuf is [168]byte in xor.go
+// (with xor_generic.go) and [21]uint64 in xor_unaligned.go.
+func c15XorBackend() string {
+	switch reflect.TypeOf(storageBuf{}).Elem().Kind() {
+	case reflect.Uint8:
+		return "xor_generic"
+	case reflect.Uint64:
+		return "xor_unaligned"
+	}
+	return "unknown"
+}
+
+// c15RecordBackend puts the back-end in the evidence and marks the run vacuous when the
+// configuration did not select the back-end it exists for.
+func c15RecordBackend(r *verifmc.Run) {
+	b := c15XorBackend()
+	r.Set("xor_backend", b)
+	r.Count("backend:"+b, 1)
+	want := map[string]string{"appengine": "xor_generic"}
+	if runtime.GOARCH == "amd64" || runtime.GOARCH == "386" || runtime.GOARCH == "ppc64le" {
+		want["default"] = "xor_unaligned"
+	}
+	if w, ok := want[r.Config()]; ok && w != b {
+		r.Vacuous(fmt.Sprintf("configuration %s was expected to compile %s but %s is in the binary", r.Config(), w, b))
 	}
 }
 
@@ -39,7 +70,9 @@ func c15SkipNonDefault(t *testing.T) {
 // TurboSHAKE / KangarooTwelve vector we have, and x/crypto/sha3 on every
 // length 0..2*rate+1. A failure here is a broken check, never an alarm.
 func TestVerifC15_refcheck_keccak(t *testing.T) {
-	c15SkipNonDefault(t)
+	if c := os.Getenv("VERIF_CONFIG"); c != "" && c != "default" {
+		t.Skip("reference binding does not involve circl code; run once")
+	}
 	r := verifmc.Start(t, "C15", "refcheck_keccak")
 	defer r.Finish()
 	r.Rule("reference model ref/keccak evaluated on authoritative vectors; non-trivial = each distinct (function, vector)")
@@ -296,6 +329,10 @@ func c15System(r *verifmc.Run, v c15Variant, msg []byte) *c15hist.System {
 		DepthMerged: r.Pick(6, 8),
 		DepthTree:   r.Pick(4, 5),
 	}
+	if r.Config() == "appengine" {
+		// second back-end: same alphabets (every Read size crosses bytes [rate-8, rate)), shallower
+		sys.DepthMerged, sys.DepthTree = r.Pick(4, 6), r.Pick(3, 4)
+	}
 	if v.sumLen > 0 {
 		// fixed-output hashes: the specification defines exactly sumLen bytes, so output is
 		// taken with Sum and with Read of at most the digest (split in two reads).
@@ -316,6 +353,7 @@ func TestVerifC15_sponge(t *testing.T) {
 	c15SkipNonDefault(t)
 	r := verifmc.Start(t, "C15", "sponge")
 	defer r.Finish()
+	c15RecordBackend(r)
 	if err := keccak.SelfTest(); err != nil {
 		t.Fatal(err)
 	}
